@@ -19,7 +19,7 @@ CLAIMED = {
    tech="runtime monitoring: mutation of authentic datagrams with snapshot-diff and delivery-log oracle", ref="DESIGN.md §3 C03"),
  "C06": dict(cat="exploration",
    text="A controller and a device (real Matter each) whose data model is a probe generated at run time (1-6 endpoints x 1-5 clusters x attributes/commands/events with arbitrary access declarations incl. timed-only and fabric-scoped, values a pure function of path and version) that logs every read/write/invoke it receives, plus the real Descriptor/ACL/NOC clusters on endpoint 0. Requests (wildcards at every position, absent elements, repeats, timed/untimed with virtual-time expiry, composition swapped between chunks) from 7 requester kinds are compared with a reference expansion written from the statement: decoded responses must equal the expected multiset per path (status classes), and the probe call log must stay inside the permitted set.",
-   note="Status codes compared by class. Group requesters, writes/invokes on the real system clusters and chunked writes are not covered. ProxyView-only grants are not judged (see C05).",
+   note="Status codes compared by class. Chunked writes (2-4 messages, per-chunk TimedRequest flag against a real / absent / expiring timed interaction) are covered; group requesters and writes/invokes on the real system clusters are not. ProxyView-only grants are not judged (see C05).",
    tech="runtime monitoring: reference path-expansion oracle + instrumented data model call log", ref="DESIGN.md §3 C06"),
  "C14": dict(cat="exploration",
    text="Same scaffold as C06; value sizes are swept so that the space left in a chunk takes every offset -8..+8 around the fit boundary for scalars, octet strings, lists (elements that do / do not fit, lists longer than a message), with data-version and event filters, for reads, subscription priming and subscription reports. The concatenation of decoded chunks must equal the one-shot expected result (each value and event exactly once, lists reassembled in order), every chunk must be well-formed on its own (strict independent TLV walk), fit the maximum payload, and only the last one ends the interaction; inputs that cannot be transported must terminate with a status in a bounded number of chunks.",
